@@ -590,11 +590,19 @@ qb_ipcs_connection_unref(struct qb_ipcs_connection *c)
 	}
 }
 
+static void
+_rerun_disconnect(void *data)
+{
+	struct qb_ipcs_connection *c = (struct qb_ipcs_connection *)data;
+
+	c->closed_retry_pending = QB_FALSE;
+	qb_ipcs_disconnect(c);
+}
+
 void
 qb_ipcs_disconnect(struct qb_ipcs_connection *c)
 {
 	int32_t res = 0;
-	qb_loop_job_dispatch_fn rerun_job;
 
 	if (c == NULL) {
 		return;
@@ -622,17 +630,30 @@ qb_ipcs_disconnect(struct qb_ipcs_connection *c)
 	}
 	if (c->state == QB_IPCS_CONNECTION_SHUTTING_DOWN) {
 		int scheduled_retry = 0;
+
+		if (c->closed_retry_pending || c->closed_finished) {
+			/*
+			 * Somebody disconnects a connection that is already
+			 * on its way out (dispatch noticed the peer is gone,
+			 * the application or qb_ipcs_destroy() asks again).
+			 * Either the queued job will call connection_closed()
+			 * again, or it has had its last call and the initial
+			 * reference is gone: in both cases there is nothing
+			 * to do, and no reference of ours to drop.
+			 */
+			return;
+		}
 		res = 0;
+		/* also keeps a disconnect issued from inside the callback out */
+		c->closed_retry_pending = QB_TRUE;
 		if (c->service->serv_fns.connection_closed) {
 			res = c->service->serv_fns.connection_closed(c);
 		}
 		if (res != 0) {
 			/* OK, so they want the connection_closed
 			 * function re-run */
-			rerun_job =
-			    (qb_loop_job_dispatch_fn) qb_ipcs_disconnect;
 			res = c->service->poll_fns.job_add(QB_LOOP_LOW,
-							   c, rerun_job);
+							   c, _rerun_disconnect);
 			if (res == 0) {
 				/* this function is going to be called again.
 				 * so hold off on the unref */
@@ -641,6 +662,8 @@ qb_ipcs_disconnect(struct qb_ipcs_connection *c)
 		}
 		remove_tempdir(c->description);
 		if (scheduled_retry == 0) {
+			c->closed_retry_pending = QB_FALSE;
+			c->closed_finished = QB_TRUE;
 			/* This removes the initial alloc ref */
 			qb_ipcs_connection_unref(c);
 		}
